@@ -858,6 +858,10 @@ static void* reb_simulation_integrate_raw(void* args){
     if (r->status != REB_STATUS_PAUSED && r->status != REB_STATUS_SCREENSHOT){ // Allow simulation to be paused initially
         r->status = REB_STATUS_RUNNING;
     }
+    if (isnan(r->dt) || isnan(thread_info->tmax) || (r->dt == 0. && thread_info->tmax != r->t)){
+        // No step can bring t any closer to tmax. Without this the loop below never ends.
+        reb_simulation_error(r,"Cannot integrate: the timestep is zero or NaN, or the requested time is NaN.");
+    }
     reb_run_heartbeat(r);
     reb_server_mutex_unlock(r);
 #ifdef __EMSCRIPTEN__
